@@ -3,7 +3,7 @@
    builds, existing test suite passes with it, demo fails with it and passes without it; then runs the property's
    xv checks against it (XV_REPO=worktree) and records everything in the seed's meta.json.  Developer tool, not a MANIFEST command."""
 import sys, os, json, subprocess, shutil, time
-WT = '/tmp/seedverify'
+WT = os.environ.get('SEEDWT', '/tmp/seedverify')
 def sh(cmd, timeout=3600, **kw):
     p = subprocess.run(cmd, shell=True, stdout=subprocess.PIPE, stderr=subprocess.STDOUT, timeout=timeout, **kw)
     return p.returncode, p.stdout.decode(errors='replace')
@@ -21,10 +21,10 @@ def build_and_test():
     rc, out = sh('ctest --test-dir %s/_b --timeout 1800' % WT)
     return rc == 0, out[-600:]
 def demo(meta, d):
-    exe = '/tmp/seedverify_demo'
+    exe = WT + '_demo'
     rc, out = sh(meta['demo_build'].replace('{WT}', WT).replace('{DIR}', d).replace('{EXE}', exe), timeout=900)
     if rc != 0: return None, 'DEMO BUILD FAILED\n' + out[-1500:]
-    try: rc, out = sh(meta.get('demo_run', '{EXE}').replace('{EXE}', exe).replace('{WT}', WT), timeout=meta.get('demo_timeout', 600))
+    try: rc, out = sh(meta.get('demo_run', '{EXE}').replace('{EXE}', exe).replace('{WT}', WT).replace('{DIR}', d), timeout=meta.get('demo_timeout', 600))
     except subprocess.TimeoutExpired: rc, out = 124, 'TIMEOUT'
     return rc, out[-1500:]
 def main():
@@ -41,7 +41,7 @@ def main():
             rc1, out1 = demo(meta, d); res['demo_with_change'] = dict(rc=rc1, tail=out1[-600:])
             checks = {}
             for pid in meta.get('check_properties', [meta['property']]):
-                rcx, outx = sh('cd /verif && XV_REPLAYS=/tmp/seedverify_replays XV_REPO=%s ./xv check %s --tier quick --no-evidence' % (WT, pid), timeout=3600)
+                rcx, outx = sh('cd /verif && XV_REPLAYS=%s_replays XV_REPO=%s ./xv check %s --tier quick --no-evidence' % (WT, WT, pid), timeout=3600)
                 checks[pid] = dict(rc=rcx, lines=[l for l in outx.splitlines() if l.startswith(('VIOLATION', 'xv:'))][-6:])
             res['xv_checks_with_change'] = checks
             sh('git -C %s checkout -q -- .' % WT)
